@@ -230,6 +230,11 @@ var FixedViolations = []FixedViolation{
 	fv("@@text A_Text_0 {", "\"y\"", "}", "script A {", "msgbox(\"x\")", "}"),
 	fv("script A {", "msgbox(\"x\")", "}", "script B {", "msgbox(\"x2\")", "msgbox(\"x3\")", "}", "@@text B_Text_1 {", "\"y\"", "}"),
 	fv("script A {", "foo(moves(walk_up))", "}", "@@movement A_Movement_0 {", "walk_down", "}"),
+	// the clashing statement has exactly the content (and type) of the generated one: still a clash, not a harmless duplicate
+	fv("script A {", "msgbox(\"x\")", "}", "@@text A_Text_0 {", "\"x\"", "}"),
+	fv("@@text(global) A_Text_0 {", "\"x\"", "}", "script A {", "msgbox(\"x\")", "}"),
+	fv("script A {", "msgbox(ascii\"x\")", "}", "@@text(local) A_Text_0 {", "ascii\"x\"", "}"),
+	fv("script A {", "foo(moves(walk_up))", "}", "@@movement A_Movement_0 {", "walk_up", "}"),
 	fv("@@movement A_Movement_0 {", "walk_down", "}", "script A {", "foo(moves(walk_up))", "}"),
 	fv("mapscripts M {", "MAP_SCRIPT_ON_LOAD {", "msgbox(\"x\")", "}", "}", "@@text M_MAP_SCRIPT_ON_LOAD_Text_0 {", "\"y\"", "}"),
 	fv("script A {", "if (flag(F)) {", "a", "}", "@@A_1:", "b", "}"),
